@@ -212,6 +212,7 @@ def run_unit(vc_path, canary=False, rlimit=None, seed=None, tag=""):
     res["smt_ms"] = (tm.get("smt") or {}).get("total") if isinstance(tm.get("smt"), dict) else None
     res["times_ms"] = {k: (v if not isinstance(v, dict) else v.get("total")) for k, v in tm.items() if k in ("total", "smt", "verification", "rust", "total-verify")}
     fails, undec, canaries_hit = [], [], []
+    unclaimed_failed = []
     for d in r["diags"]:
         if d.get("level") != "error":
             continue
@@ -230,8 +231,14 @@ def run_unit(vc_path, canary=False, rlimit=None, seed=None, tag=""):
         if ".canary." in oid or oid.endswith(".canary"):
             canaries_hit.append(oid)
             continue
+        if oid in g.get("unclaimed", []):
+            unclaimed_failed.append({"id": oid, "kind": kind, "site": detail.get("site")})
+            continue
         fails.append({"id": oid, "kind": kind, "detail": detail})
     res["failed"] = fails
+    res["unclaimed"] = g.get("unclaimed", [])
+    res["unclaimed_failed"] = unclaimed_failed
+    res["obligation_ids"] = [i for i in g["obligations"] if i not in g.get("unclaimed", [])]
     res["undecided_msgs"] = undec
     res["canaries_hit"] = canaries_hit
     res["wall_s"] = round(time.time() - t0, 2)
@@ -243,7 +250,7 @@ def run_unit(vc_path, canary=False, rlimit=None, seed=None, tag=""):
         res.update(status="undecided", reason="no verus summary (tool crash?) " + r["stderr"][-400:])
     elif fails:
         res.update(status="violated")
-    elif vr.get("success") and vr.get("verified", 0) > 0:
+    elif (vr.get("success") or (unclaimed_failed and not fails)) and vr.get("verified", 0) > 0:
         res.update(status="ok")
     elif canary:
         res.update(status="ok")
